@@ -211,6 +211,15 @@ func generate(thorough bool, emit func(kase)) {
 		for _, k := range []bool{false, true} {
 			emit(kase{Family: "multi-record-hello", Desc: "plain 60 kB", Keys: k, First: tlsref.FragmentMax(0x0301, bigPlain.Msg())})
 		}
+		// the same 60 kB made of 15000 EMPTY extensions: what is kept of a hello must not grow with the number of its extensions
+		manyExts := baseOuter()
+		manyExts.Exts = []tlsref.Ext{tlsref.SNI(pubName), tlsref.SupportedVersions(0x0304)}
+		for i := 0; i < 15000; i++ {
+			manyExts.Exts = append(manyExts.Exts, tlsref.Ext{Type: 0x6b6b})
+		}
+		for _, k := range []bool{false, true} {
+			emit(kase{Family: "multi-record-hello-many-extensions", Desc: "plain 60 kB, 15000 empty extensions", Keys: k, First: tlsref.FragmentMax(0x0301, manyExts.Msg())})
+		}
 		bs := sealed(append(echx.StdEncInner(innerName, []string{"h2"}, false), tlsref.Opaque(0x7a7a, 25000)), nil, nil)
 		emit(kase{Family: "multi-record-hello", Desc: "sealed, 25 kB inner", Keys: true, First: tlsref.FragmentMax(0x0301, bs.Outer.Msg())})
 		msgGood := good.Outer.Msg()
